@@ -1,5 +1,6 @@
 import NeoFS.Model.Skel
 import NeoFS.Model.IRAuth
+import NeoFS.Model.IRIndexer
 import NeoFS.Gen.IRHandlers
 /-!
 # C35 — inner ring nodes outside the alphabet never act with alphabet authority
@@ -216,3 +217,230 @@ example : emitEffects 1 4 3 9 = 4 := by decide
 example : isAlphabet (alphabetIndex false 0 [5, 0, 7]) = true := by decide
 
 end NeoFS.IRAuth
+
+/-!
+Part 3 (the indexer's cache): which key lists a guard evaluation is answered from, for every node
+life — every sequence of process starts, key-list changes, failing and recovering lookups, waits,
+RPC reconnections and guard evaluations (`NeoFS.IRIndexer.Op`).
+-/
+namespace NeoFS.IRIndexer
+open NeoFS.IRAuth
+
+/-- a non-negative `keyPosition` is the position of the key -/
+theorem keyPosition_getElem (key : Nat) (l : List Nat) (h : 0 ≤ keyPosition key l) :
+    l[(keyPosition key l).toNat]? = some key := by
+  induction l with
+  | nil => simp [keyPosition] at h
+  | cons k ks ih =>
+    unfold keyPosition at h ⊢
+    by_cases hk : k = key
+    · simp [hk]
+    · simp only [hk, if_false] at h ⊢
+      split
+      · rename_i hneg; simp only [hneg, if_true] at h; omega
+      · rename_i hnn
+        have h0 : 0 ≤ keyPosition key ks := by omega
+        have : (keyPosition key ks + 1).toNat = (keyPosition key ks).toNat + 1 := by omega
+        rw [this, List.getElem?_cons_succ]
+        exact ih h0
+
+/-- The cache invariant: whenever the cache is fresh, no lookup failed and the cache was not dropped
+since the last complete successful lookup, and the cached indexes are exactly the positions of the
+key in the two lists THAT lookup read. -/
+def Inv (key : Nat) (s : St) : Prop :=
+  fresh s = true →
+    s.dirty = false ∧ ∃ g, s.good = some g ∧ s.ind = indOf key g.irL g.commL ∧ s.last = some g.readAt
+
+theorem inv_init (key : Nat) : Inv key {} := by
+  intro h; cases h
+
+/-! the four branches of `update` -/
+
+theorem update_fresh (key : Nat) (s : St) (h : fresh s = true) : update key s = (s, { ind := some s.ind }) := by
+  unfold update; simp [h]
+
+theorem update_failIR (key : Nat) (s : St) (h : fresh s = false) (h1 : 0 < s.failIR) :
+    update key s = ({ s with failIR := s.failIR - 1, dirty := true }, { ind := none, rpcIR := 1 }) := by
+  unfold update; simp [h, h1]
+
+theorem update_failComm (key : Nat) (s : St) (h : fresh s = false) (h1 : s.failIR = 0) (h2 : 0 < s.failComm) :
+    update key s = ({ s with ind := { s.ind with irIdx := keyPosition key s.irList, irSize := s.irList.length },
+                             failComm := s.failComm - 1, dirty := true },
+                    { ind := none, rpcIR := 1, rpcComm := 1 }) := by
+  unfold update; simp [h, h1, h2]
+
+theorem update_ok (key : Nat) (s : St) (h : fresh s = false) (h1 : s.failIR = 0) (h2 : s.failComm = 0) :
+    update key s = ({ s with ind := indOf key s.irList s.commList, last := some s.now,
+                             good := some ⟨s.irList, s.commList, s.now⟩, dirty := false },
+                    { ind := some (indOf key s.irList s.commList), rpcIR := 1, rpcComm := 1 }) := by
+  unfold update; simp [h, h1, h2, indOf]
+
+/-- case analysis over the branches -/
+theorem update_cases (key : Nat) (s : St) :
+    (fresh s = true) ∨ (fresh s = false ∧ 0 < s.failIR) ∨ (fresh s = false ∧ s.failIR = 0 ∧ 0 < s.failComm) ∨
+    (fresh s = false ∧ s.failIR = 0 ∧ s.failComm = 0) := by
+  cases hf : fresh s
+  · right
+    rcases Nat.eq_zero_or_pos s.failIR with h1 | h1
+    · rcases Nat.eq_zero_or_pos s.failComm with h2 | h2
+      · exact Or.inr (Or.inr ⟨rfl, h1, h2⟩)
+      · exact Or.inr (Or.inl ⟨rfl, h1, h2⟩)
+    · exact Or.inl ⟨rfl, h1⟩
+  · exact Or.inl rfl
+
+theorem update_inv (key : Nat) (s : St) (h : Inv key s) : Inv key (update key s).1 := by
+  rcases update_cases key s with hf | ⟨hf, h1⟩ | ⟨hf, h1, h2⟩ | ⟨hf, h1, h2⟩
+  · rw [update_fresh key s hf]; exact h
+  · rw [update_failIR key s hf h1]; intro hf'
+    have : fresh s = true := hf'
+    rw [hf] at this; cases this
+  · rw [update_failComm key s hf h1 h2]; intro hf'
+    have : fresh s = true := hf'
+    rw [hf] at this; cases this
+  · rw [update_ok key s hf h1 h2]
+    intro _
+    exact ⟨rfl, ⟨s.irList, s.commList, s.now⟩, rfl, rfl, rfl⟩
+
+theorem step_inv (key : Nat) (s : St) (op : Op) (h : Inv key s) : Inv key (step key s op) := by
+  cases op with
+  | start t => intro hf; simp [step, fresh] at hf
+  | chain i c => exact h
+  | fail a b => exact h
+  | wait d =>
+    intro hf
+    have hf0 : fresh s = true := by
+      have hf1 : fresh { s with now := s.now + d } = true := hf
+      unfold fresh at hf1 ⊢
+      cases hl : s.last with
+      | none => simp [hl] at hf1
+      | some t =>
+        simp only [hl, decide_eq_true_eq] at hf1 ⊢
+        omega
+    exact h hf0
+  | reset => intro hf; simp [step, reset, fresh] at hf
+  | eval => exact update_inv key s h
+
+theorem run_inv (key : Nat) (ops : List Op) (s : St) (h : Inv key s) : Inv key (run key s ops) := by
+  induction ops generalizing s with
+  | nil => exact h
+  | cons o os ih => exact ih _ (step_inv key s o h)
+
+/-- the ghost flag means what it says: a failed lookup and a dropped cache raise it … -/
+theorem failed_lookup_marks (key : Nat) (s : St) (h : (update key s).2.ind = none) :
+    (update key s).1.dirty = true ∧ fresh (update key s).1 = false := by
+  rcases update_cases key s with hf | ⟨hf, h1⟩ | ⟨hf, h1, h2⟩ | ⟨hf, h1, h2⟩
+  · rw [update_fresh key s hf] at h; cases h
+  · rw [update_failIR key s hf h1]; exact ⟨rfl, hf⟩
+  · rw [update_failComm key s hf h1 h2]; exact ⟨rfl, hf⟩
+  · rw [update_ok key s hf h1 h2] at h; cases h
+
+theorem reset_marks (s : St) : (reset s).dirty = true ∧ fresh (reset s) = false := ⟨rfl, rfl⟩
+
+/-- … and only a complete successful lookup clears it, recording the lists it read -/
+theorem success_records (key : Nat) (s : St) (hf : fresh s = false) (i : Ind) (h : (update key s).2.ind = some i) :
+    (update key s).1.good = some ⟨s.irList, s.commList, s.now⟩ ∧ (update key s).1.dirty = false ∧
+    i = indOf key s.irList s.commList ∧ s.failIR = 0 ∧ s.failComm = 0 := by
+  rcases update_cases key s with hf' | ⟨_, h1⟩ | ⟨_, h1, h2⟩ | ⟨_, h1, h2⟩
+  · rw [hf] at hf'; cases hf'
+  · rw [update_failIR key s hf h1] at h; cases h
+  · rw [update_failComm key s hf h1 h2] at h; cases h
+  · rw [update_ok key s hf h1 h2] at h ⊢
+    simp only [Option.some.injEq] at h
+    exact ⟨rfl, rfl, h.symm, h1, h2⟩
+
+/-- **C35 (cache).** In every node life, whatever a guard evaluation is answered with comes from the most
+recent complete SUCCESSFUL lookup: no lookup failed and the cache was not dropped since, the indexes
+are the key's positions in the lists that lookup read, and the lookup is younger than the cache
+timeout or was made by this very evaluation (then it read the chain's current lists). -/
+theorem served_from_last_successful_lookup (key : Nat) (ops : List Op) (i : Ind)
+    (h : (update key (run key {} ops)).2.ind = some i) :
+    (update key (run key {} ops)).1.dirty = false ∧
+    ∃ g, (update key (run key {} ops)).1.good = some g ∧ i = indOf key g.irL g.commL ∧
+      ((run key {} ops).now - g.readAt < (run key {} ops).timeout ∨
+       (g.readAt = (run key {} ops).now ∧ g.irL = (run key {} ops).irList ∧ g.commL = (run key {} ops).commList)) := by
+  have hinv := run_inv key ops {} (inv_init key)
+  generalize run key {} ops = s at h hinv
+  cases hf : fresh s
+  · obtain ⟨hg, hd, hi, _, _⟩ := success_records key s hf i h
+    exact ⟨hd, ⟨s.irList, s.commList, s.now⟩, hg, hi, Or.inr ⟨rfl, rfl, rfl⟩⟩
+  · obtain ⟨hd, g, hg, hind, hlast⟩ := hinv hf
+    rw [update_fresh key s hf] at h ⊢
+    simp only [Option.some.injEq] at h
+    refine ⟨hd, g, hg, ?_, Or.inl ?_⟩
+    · rw [← h]; exact hind
+    · unfold fresh at hf
+      rw [hlast] at hf
+      simpa using hf
+
+/-- after a failed lookup or a reconnection nothing is served from the cache: as long as the flag is
+up, every guard evaluation goes to the chain -/
+theorem dirty_forces_lookup (key : Nat) (ops : List Op) (h : (run key {} ops).dirty = true) :
+    fresh (run key {} ops) = false ∧ (update key (run key {} ops)).2.rpcIR = 1 := by
+  have hinv := run_inv key ops {} (inv_init key)
+  generalize run key {} ops = s at h hinv
+  have hff : fresh s = false := by
+    cases hc : fresh s
+    · rfl
+    · have := (hinv hc).1; rw [h] at this; cases this
+  refine ⟨hff, ?_⟩
+  rcases update_cases key s with hf | ⟨hf, h1⟩ | ⟨hf, h1, h2⟩ | ⟨hf, h1, h2⟩
+  · rw [hff] at hf; cases hf
+  · rw [update_failIR key s hf h1]
+  · rw [update_failComm key s hf h1 h2]
+  · rw [update_ok key s hf h1 h2]
+
+/-- a guard passes (non-negative alphabet index) only if the node's key is AT THAT POSITION of the
+committee read by the most recent successful lookup -/
+theorem guard_pass_requires_position (key : Nat) (ops : List Op)
+    (h : 0 ≤ alphabetIndexOf (update key (run key {} ops)).2) :
+    (update key (run key {} ops)).1.dirty = false ∧
+    ∃ g, (update key (run key {} ops)).1.good = some g ∧
+      g.commL[(alphabetIndexOf (update key (run key {} ops)).2).toNat]? = some key := by
+  unfold alphabetIndexOf at h ⊢
+  cases hr : (update key (run key {} ops)).2.ind with
+  | none => rw [hr] at h; simp at h
+  | some i =>
+    rw [hr] at h
+    obtain ⟨hd, g, hg, hi, _⟩ := served_from_last_successful_lookup key ops i hr
+    refine ⟨hd, g, hg, ?_⟩
+    simp only at h ⊢
+    have ha : i.aIdx = keyPosition key g.commL := by rw [hi]; rfl
+    rw [ha] at h ⊢
+    exact keyPosition_getElem key g.commL h
+
+/-- every modelled alphabet action (validator vote, gas emission, epoch tick) taken on the answer of a
+guard evaluation requires that position, inside the range of the alphabet contracts where one is used -/
+theorem acts_only_on_last_successful_lookup (key : Nat) (ops : List Op) (n nval nodes em : Nat) (v : Bool)
+    (h : 0 < voteInvokes (alphabetIndexOf (update key (run key {} ops)).2) n nval v ∨
+         0 < emitEffects (alphabetIndexOf (update key (run key {} ops)).2) n nodes em ∨
+         0 < tickEffects (isAlphabet (alphabetIndexOf (update key (run key {} ops)).2))) :
+    (update key (run key {} ops)).1.dirty = false ∧
+    ∃ g, (update key (run key {} ops)).1.good = some g ∧
+      g.commL[(alphabetIndexOf (update key (run key {} ops)).2).toNat]? = some key := by
+  apply guard_pass_requires_position
+  rcases h with h | h | h
+  · exact (vote_requires_alphabet _ _ _ _ h).1
+  · exact (emit_requires_alphabet _ _ _ _ h).1
+  · have := tick_requires_alphabet _ h
+    simpa [isAlphabet] using this
+
+/-- node lives over the variant that stamps the cache before the lookups -/
+def runStampFirst (key : Nat) (s : St) (ops : List Op) : St :=
+  ops.foldl (fun s o => match o with | .eval => (updateStampFirst key s).1 | o => step key s o) s
+
+/-- stamping `lastAccess` before the lookups breaks the statement: a node outside the committee whose
+first committee lookup fails is then served the zero-valued index 0 from the "fresh" cache -/
+theorem stamp_first_counterexample :
+    ¬ (∀ (ops : List Op), 0 ≤ alphabetIndexOf (updateStampFirst 0 (runStampFirst 0 {} ops)).2 →
+        (updateStampFirst 0 (runStampFirst 0 {} ops)).1.dirty = false) := by
+  intro h
+  have := h [.chain [0, 1, 2, 3] [1, 2, 3], .fail 0 1, .eval] (by decide)
+  revert this
+  decide
+
+/-- non-vacuity: a member is served its position from the cache, a dismissed member is not after a reconnection -/
+example : alphabetIndexOf (update 0 (run 0 {} [.chain [0, 1] [1, 0, 2], .eval, .wait 9])).2 = 1 := by decide
+example : (update 0 (run 0 {} [.chain [0, 1] [1, 0, 2], .eval, .wait 9])).2.rpcIR = 0 := by decide
+example : alphabetIndexOf (update 0 (run 0 {} [.chain [0, 1] [1, 0, 2], .eval, .chain [0, 1] [1, 2], .reset, .fail 0 1, .eval])).2 = -1 := by decide
+
+end NeoFS.IRIndexer
